@@ -16,10 +16,11 @@
 import ZodbModel.Basic
 namespace ZodbModel.Resolve
 
-abbrev Oid := Nat
-abbrev Tid := Nat
-abbrev ClassId := Nat
-abbrev DbName := Nat
+-- plain notations (not definitions), so that `omega`/`simp` see `Nat` directly
+scoped notation "Oid" => Nat
+scoped notation "Tid" => Nat
+scoped notation "ClassId" => Nat
+scoped notation "DbName" => Nat
 
 /-! ### persistent references -/
 
